@@ -20,6 +20,20 @@ def opFacc (args impl : List String) : Verdict :=
     | _, _ => .badCase "facc"
   | _ => .badCase "facc"
 
+/-- `fcorr`: the case is a corrupted checksummed file (the generator guarantees that); both the
+model and the implementation must report corrupted data. -/
+def opFcorr (args impl : List String) : Verdict :=
+  match args with
+  | [rt, hx] =>
+    match routeMem? rt, hexToBytes hx with
+    | some mem, some b =>
+      let r := init mem b
+      if R.rc r != Err.ecorrupted.code then
+        .fail s!"model accepts a corrupted file (rc {R.rc r}); impl={" ".intercalate impl}"
+      else expectTokens [toString (R.rc r)] impl ["fcorr"]
+    | _, _ => .badCase "fcorr"
+  | _ => .badCase "fcorr"
+
 def bodyTok : R Bytes → String
   | .ok b => bytesToHex b
   | .error e => s!"E{e.code}"
